@@ -96,7 +96,7 @@ class Contract:
                  min_obligations=1, trusted=False, note='', unexpected_exceptions='obligation',
                  decreases=None, ghost=None, inline_asserts=None, skip=False,
                  native=None, assumptions=(), volatile=None, env_assumes=(), ensures_exc=(),
-                 ensures_all=()):
+                 ensures_all=(), known_findings=()):
         self.qualname = qualname
         self.params = dict(params or {})
         self.returns = returns
@@ -124,6 +124,11 @@ class Contract:
         self.env_assumes = list(env_assumes)      # assumptions about the environment (never asserted)
         self.ensures_exc = list(ensures_exc)      # post-conditions of every exceptional exit
         self.ensures_all = list(ensures_all)      # post-conditions of every exit, normal or exceptional
+        # recorded genuine defects (must also be listed, status "open", in known_findings.json):
+        # dict(id=..., exclude="<entry-state expr: the witness class>", witness=<kwargs dict or
+        # callable() -> kwargs>, what="...").  The contract is proved / run outside the witness
+        # class; the stored witness is replayed on every run.
+        self.known_findings = [dict(k) for k in known_findings]
         self.assumptions = list(assumptions)
         self._parsed = {}
 
